@@ -257,6 +257,15 @@ Definition valid_unquoted (s : bytes) : bool :=
   | [] => false
   end.
 
+(* strings the raw-string syntax can spell: no backslash directly before a quote
+   or at the end *)
+Fixpoint raw_ok (s : bytes) : bool :=
+  match s with
+  | [] => true
+  | c :: r => (if N.eqb c 92 then match r with [] => false | d :: _ => negb (N.eqb d 39) end else true)
+              && raw_ok r
+  end.
+
 Definition opt_int64 (o : option Z) : bool := match o with Some z => in_int64 z | None => true end.
 
 (* well-precedenced, well-formed trees: exactly the trees whose spelling needs no
@@ -278,7 +287,7 @@ Fixpoint wp (e : expr) : bool :=
   | EIdent true _ => true
   | ECurrent => true
   | ELit v => is_json v
-  | ERaw _ => true
+  | ERaw s => raw_ok s
   | EParen x => wp x
   | EMSList es => negb (match es with [] => true | _ => false end) && forallb wp es
   | EMSHash kvs =>
